@@ -185,7 +185,8 @@ inductive Err where
   | remoteKeyError | ringUnspecified | couldNotParseCertificate
   | couldNotParseCertificationRequest | unsupportedExtension | unsupportedSignatureAlgorithm
   | invalidNameType | invalidAsn1String | invalidIpAddressOctetLength | couldNotParseKeyPair
-  | ringKeyRejected | keyGenerationUnavailable | pemError | x509 | time | other (s : String)
+  | ringKeyRejected | keyGenerationUnavailable | pemError | x509 | time | invalidOid
+  | other (s : String)
   deriving DecidableEq, Repr, Inhabited
 
 /-- outcome of a public API call -/
